@@ -71,6 +71,13 @@ def events(tier, rng):
         used = [j for j in range(n2) if np.any(A[:, j] != 0)]
         for j in used:
             A[j, j] = 50.0 + j
+        if len(used) >= 2 and len(evs) % 3 == 0:
+            # an amplitude with a zero diagonal term but a non-null row (augmented / indefinite systems): it is active
+            j0, j1 = used[0], used[1]
+            A[j0, j0] = 0.0
+            A[j0, j1] = A[j1, j0] = 9.0
+            if abs(np.linalg.det(A[np.ix_(used, used)])) < 1e-6:
+                A[j0, j0] = 50.0
         b = np.array([float(rng.randint(-5, 5)) for _ in range(n2)])
         x = sp.solve(csr_matrix(A), b, silent=True)
         resid = np.abs(A.dot(x) - b)[used].max() if used else 0.0
